@@ -186,6 +186,14 @@ def check(model, rep):
                         bad = (ev, attr, val.kind)
     rep.decide(bad is None, 'C03.kinds', 'stored quantity kinds',
                f'{bad[0].text} stores a {bad[2]} into {bad[1]}' if bad else '', detail=f'{nst} stores typed')
+    # "whenever the powertrain is not held by self-locking": the hold must engage only as specified (C13's decision
+    # table and its only-under-self_locking rule), otherwise the equation of motion is skipped for powertrains that
+    # cannot self-lock
+    from sa.core import Report
+    from checks import c13
+    dep = Report('C13')
+    c13.check(model, dep)
+    rep.absorb(dep, {'C13.lock-table': 'C03.hold.lock-table', 'C13.only-if': 'C03.hold.only-if'})
     rep.analysed.update({'run_paths': len(rm.paths), 'instant_contexts': len(ins), 'time_params': params})
     rep.require('C03.inertia', 4)
     rep.require('C03.eom', 2)
